@@ -56,6 +56,21 @@ Lemma current_write le recs :
      s_got (wr_sink r) = full_output le recs /\ s_tripped (wr_sink r) = false).
 Proof. split; [apply current_writer_detects|apply current_writer_safe]. Qed.
 
+Lemma current_writer_no_false_error le recs fo :
+  let r := writer_run current_wpolicy le recs fo in
+  s_tripped (wr_sink r) = false ->
+  wr_write r = None /\ wr_flush r = None /\ s_got (wr_sink r) = full_output le recs.
+Proof. exact (writer_no_false_error current_wpolicy le current_wpolicy_ok fo recs). Qed.
+
+Lemma current_writer_healthy le recs :
+  let r := writer_run current_wpolicy le recs None in
+  wr_write r = None /\ wr_flush r = None /\ s_got (wr_sink r) = full_output le recs.
+Proof. exact (writer_healthy current_wpolicy le current_wpolicy_ok recs). Qed.
+
+Lemma current_fuel_enough le recs fo :
+  let r := writer_run current_wpolicy le recs fo in wr_write r <> Some EFuel /\ wr_flush r <> Some EFuel.
+Proof. exact (fuel_enough current_wpolicy le current_wpolicy_ok fo recs). Qed.
+
 Lemma current_reader_detects text k c :
   reader_run current_rpolicy (failing_source text k c RInj) = RCtorErr \/
   reader_run current_rpolicy (failing_source text k c RInj) = RScanErr RInj.
